@@ -63,3 +63,27 @@ Proof.
 Qed.
 Theorem conv_value_injective a b : conv_value a = conv_value b -> a = b.
 Proof. intros E. rewrite <- (unconv_conv a), <- (unconv_conv b), E. reflexivity. Qed.
+
+(* text: valid text is carried unchanged; whatever the text, what is sent is valid *)
+Theorem sanitize_valid_unchanged s : valid_text s = true -> sanitize s = s.
+Proof. unfold sanitize. intros ->. reflexivity. Qed.
+
+Lemma hexd_small n : 0 <= n < 16 -> is_surr (hexd n) = false.
+Proof. intros H. unfold hexd, is_surr. destruct (n <? 10) eqn:E; apply andb_false_iff; left; apply Z.leb_gt; lia. Qed.
+
+Lemma esc_surr_valid c : 0 <= c < 65536 -> existsb is_surr (esc_surr c) = false.
+Proof.
+  intros H. unfold esc_surr. cbn [existsb].
+  assert (A : 0 <= c / 4096 < 16) by (split; [apply Z.div_pos; lia|apply Z.div_lt_upper_bound; lia]).
+  rewrite (hexd_small _ A), (hexd_small ((c / 256) mod 16)), (hexd_small ((c / 16) mod 16)), (hexd_small (c mod 16));
+    try (apply Z.mod_pos_bound; lia). reflexivity.
+Qed.
+
+Theorem sanitize_always_valid s : valid_text (sanitize s) = true.
+Proof.
+  unfold sanitize. destruct (valid_text s) eqn:V; [exact V|]. unfold valid_text. apply negb_true_iff.
+  clear V. induction s as [|c r IH]; [reflexivity|]. cbn [flat_map]. rewrite existsb_app, IH, orb_false_r.
+  destruct (is_surr c) eqn:S.
+  - apply esc_surr_valid. unfold is_surr in S. apply andb_true_iff in S as [A B]. apply Z.leb_le in A, B. lia.
+  - cbn [existsb]. rewrite S. reflexivity.
+Qed.
